@@ -31,7 +31,21 @@ def run(ctx, rep):
     deg = q[4][fl[0]]
     dname = fields[fl[0]]
     rep.sample({'degrees': show(deg, maxd=9)[:500]})
-    # R16.1 image
+    # R16.1 every outcome is the atan2 formula; a constant bearing is only acceptable where both atan2 arguments vanish
+    from .common import ite_leaves
+    leaves = list(ite_leaves(deg))
+    if len(leaves) > 1:
+        formula = [v for c, v in leaves if any(x and x[0] == 'app' and x[1] == 'atan2' for x in subterms(v))]
+        for conds, v in leaves:
+            if const_f64(v) is not None:
+                zeros = [c for c, pol in conds if pol and c[0] == 'bin' and c[1] == 'Eq' and (const_f64(c[3]) == 0.0 or const_f64(c[2]) == 0.0)]
+                ok2 = len(zeros) >= 2
+                rep.ob('R16.1', 'constant-bearing-case', ok2,
+                       'a fixed bearing is returned only where both atan2 arguments are zero (bearing undefined)' if ok2 else
+                       f'a fixed bearing {const_f64(v)} is returned under {[(show(c, maxd=3)[:60], pol) for c, pol in conds]}: '
+                       'locations other than the Kaaba / its antipode are affected')
+        if len(formula) == 1:
+            deg = formula[0]
     lo, hi = D.rng(deg)
     full = lo <= -180.0 + 1e-9 and hi >= 180.0 - 1e-9
     at2 = [x for x in subterms(deg) if x and x[0] == 'app' and x[1] == 'atan2']
